@@ -407,7 +407,9 @@ class SigmaString(SigmaType):
         return self.to_plain(regex=True)
 
     def __bytes__(self) -> bytes:
-        return str(self).encode()
+        # Encode the string content itself, not its escaped plain representation: an escaped
+        # wildcard ("\\*") is the single character "*".
+        return self.to_plain(regex=True).encode()
 
     def __len__(self) -> int:
         return sum(
